@@ -5,6 +5,7 @@ CONSTANTS
   TypesC <- TypesTwo
   Depth = "core"
   FieldSet = "full"
+  Entries <- EntriesUntrusted
   MaxOps = 1
   Heavy <- NoOps
   HeavyAfter <- NoOps
